@@ -106,6 +106,10 @@ def generate(program, spec, qualname, recv_cls=None, case=None):
     ex.contract_stack = [c]
     # vacuity probe: the preconditions must be satisfiable (checked by the solver stage)
     ex.obligations_pre = list(st.pc)
+    # lets the loop rule frame writes by the unit's own modifies clauses (parsed lazily, in the state where it is first needed,
+    # so that units without such loops see no extra facts)
+    ex.unit_mods = None
+    ex.unit_mods_src = (entry_heap, dict(env), list(c.modifies))
     results = ex.exec_block(fi.body(), st)
     mods, star, ovar = calls.parse_modifies(ex, _mk_state(entry_heap, st), env, c.modifies)
     for s, oc in results:
@@ -190,6 +194,9 @@ def frame_obligations(ex, st, entry_heap, mods, ovar, c):
         if hn.startswith("has$"):
             base = hn[4:]
             key = base
+            owners = [c_ for (c_, n_) in ex.S.fields if n_ == base]
+            if owners and all(c_ in ex.P.classes and base in ex.P.init_assigned(c_) for c_ in owners):
+                continue        # every constructor creates this attribute: has(., base) is constantly true (I-DEF) and this map is never read
         else:
             key = hn
         if key in ("$dv", "$dh", "$dk"):
@@ -226,7 +233,7 @@ def axioms():
 
 
 _SEQ_SYMS = {"Len", "At", "Append1", "RemoveAt", "IndexOf", "Contains", "Take", "Drop", "Concat", "Update",
-             "SumI", "SumR", "Range", "PSum", "PSumI", "Empty", "Intended"}
+             "SumI", "SumR", "Range", "PSum", "PSumI", "Empty", "NoDup", "Intended"}
 
 
 def _symbols(t, acc, seen):
@@ -344,7 +351,7 @@ def discharge(ob, use_cvc5=True, timeout_ms=None, seed=0, quick=False):
     # relevancy level 1 vs 2 changes which instantiations z3 performs; neither dominates, so both are tried
     attempts = [(base, seed, int(os.environ.get("PYVC_REL1", "2")))]
     if RETRY and not quick:
-        attempts += [(base, seed, 1 if attempts[0][2] == 2 else 2), (3 * base, seed + 7, 2)]
+        attempts += [(base, seed, 1 if attempts[0][2] == 2 else 2), (3 * base, seed + 7, 2), (3 * base, seed + 7, 1)]
     for (tmo, sd, rel) in attempts:
         s = smt.new_solver(tmo, sd, rel)
         for a in axs:
